@@ -129,12 +129,42 @@ pub fn raw_name_to_ts_field(value: String) -> String {
         .next()
         .map_or(true, |first| !first.is_numeric());
 
-    let valid = valid_chars && does_not_start_with_digit;
+    let valid = valid_chars && does_not_start_with_digit && !value.is_empty();
 
     if valid {
         value
     } else {
-        format!(r#""{value}""#)
+        format!(r#""{}""#, escape_string_literal(&value))
+    }
+}
+
+/// Escapes a string so that it can be placed between double quotes in TypeScript.
+pub fn escape_string_literal(value: &str) -> String {
+    let mut escaped = String::with_capacity(value.len());
+    for c in value.chars() {
+        match c {
+            '"' => escaped.push_str("\\\""),
+            '\\' => escaped.push_str("\\\\"),
+            '\n' => escaped.push_str("\\n"),
+            '\r' => escaped.push_str("\\r"),
+            '\t' => escaped.push_str("\\t"),
+            c if (c as u32) < 0x20 || c == '\u{2028}' || c == '\u{2029}' => {
+                escaped.push_str(&format!("\\u{:04x}", c as u32))
+            }
+            c => escaped.push(c),
+        }
+    }
+    escaped
+}
+
+/// Like [escape_string_literal], for a name given as an expression: string literals are
+/// escaped, any other expression is left as it is.
+pub fn escape_string_expr(expr: &Expr) -> Expr {
+    match expr {
+        Expr::Lit(ExprLit {
+            lit: Lit::Str(str), ..
+        }) => make_string_literal(&escape_string_literal(&str.value()), str.span()),
+        other => other.clone(),
     }
 }
 
